@@ -875,3 +875,152 @@ func (c *Ctx) checkDerivationThroughRegistry(rule string) {
 	}
 	c.floor(rule, n, 2)
 }
+
+// checkSubscopeSource: every scope scopeRegistry.Subscope hands out was found in a shard's canonical
+// map (scopeBucket.s, keyed by the rendered key) or was created in this call. A second index keyed by
+// anything weaker than the canonical key (a fingerprint, a memo) hands one derivation the scope of
+// another: wrong name and tags (C04), merged identities (C05).
+func (c *Ctx) checkSubscopeSource(rule string) {
+	fS := c.field("", "scopeBucket", "s")
+	fn := c.fn("", "scopeRegistry", "Subscope")
+	scopeT := c.named("", "scope")
+	if fS == nil || fn == nil || scopeT == nil {
+		c.missing(rule, "tally.scopeRegistry.Subscope / scopeBucket.s")
+		return
+	}
+	key := c.fnKey(fn)
+	c.sawFunc(key)
+	var classify func(v ssa.Value, depth int, seen map[ssa.Value]bool) string
+	classify = func(v ssa.Value, depth int, seen map[ssa.Value]bool) string {
+		v = canon(v)
+		if depth == 0 {
+			return "its origin could not be traced"
+		}
+		if seen[v] {
+			return ""
+		}
+		seen[v] = true
+		switch x := v.(type) {
+		case *ssa.Alloc:
+			if types.Identical(deref(x.Type()), scopeT) {
+				return "" // created here
+			}
+		case *ssa.Extract:
+			if lk, ok := x.Tuple.(*ssa.Lookup); ok && x.Index == 0 {
+				return classify(lk, depth, seen)
+			}
+			if call, ok := x.Tuple.(*ssa.Call); ok {
+				if g := staticCallee(call); g != nil && g.Pkg == fn.Pkg && g.Blocks != nil {
+					for _, r := range returnsOf(g) {
+						if x.Index >= len(r.Results) {
+							continue
+						}
+						for _, va := range resultValues(r, x.Index) {
+							if w := classifyIn(c, g, fS, scopeT, va.Val, depth-1); w != "" {
+								return w
+							}
+						}
+					}
+					return ""
+				}
+			}
+		case *ssa.Lookup:
+			if f, _ := loadedField(x.X); f == fS {
+				return ""
+			}
+			if f, _ := loadedField(x.X); f != nil {
+				return "it was looked up in " + f.Name() + ", which is not the canonical-key map of the shard"
+			}
+			return "it was looked up in a map that is not the canonical-key map of the shard"
+		case *ssa.Phi:
+			for _, e := range x.Edges {
+				if w := classify(e, depth-1, seen); w != "" {
+					return w
+				}
+			}
+			return ""
+		case *ssa.Call:
+			if g := staticCallee(x); g != nil && g.Pkg == fn.Pkg && g.Blocks != nil {
+				// a helper of the registry: the same holds for what it returns
+				for _, r := range returnsOf(g) {
+					if len(r.Results) == 0 {
+						continue
+					}
+					for _, va := range resultValues(r, 0) {
+						if w := classifyIn(c, g, fS, scopeT, va.Val, depth-1); w != "" {
+							return w
+						}
+					}
+				}
+				return ""
+			}
+		case *ssa.Const:
+			if x.IsNil() {
+				return ""
+			}
+		case *ssa.TypeAssert:
+			// the package's inert scope (registry or parent closed)
+			if ld, ok := x.X.(*ssa.UnOp); ok && ld.Op == token.MUL {
+				if g, isG := ld.X.(*ssa.Global); isG && g.Name() == "NoopScope" {
+					return ""
+				}
+			}
+		}
+		return fmt.Sprintf("it is neither an entry of the shard's canonical-key map nor a scope created in this call (%T)", v)
+	}
+	bad := ""
+	var at ssa.Instruction
+	for _, r := range returnsOf(fn) {
+		for _, va := range resultValues(r, 0) {
+			if w := classify(va.Val, 8, map[ssa.Value]bool{}); w != "" && bad == "" {
+				bad, at = w, va.At
+			}
+		}
+	}
+	if bad != "" {
+		c.bad(rule, key, at.Pos(), "Subscope can hand out a scope that did not come from the canonical lookup: "+bad+" - a derivation is given the scope (name, tags, metrics) of another derivation whenever the weaker index cannot tell them apart", c.describe(at))
+		return
+	}
+	c.ok(rule, key, fn.Pos(), "every scope handed out is an entry of scopeBucket.s or was created in this call")
+}
+
+// classifyIn: helper-level version of the classification above (entries of scopeBucket.s, fresh scopes,
+// parameters of scope type - the caller passes what it found).
+func classifyIn(c *Ctx, g *ssa.Function, fS *types.Var, scopeT *types.Named, v ssa.Value, depth int) string {
+	v = canon(v)
+	if depth <= 0 {
+		return "its origin could not be traced"
+	}
+	switch x := v.(type) {
+	case *ssa.Alloc:
+		if types.Identical(deref(x.Type()), scopeT) {
+			return ""
+		}
+	case *ssa.Parameter:
+		return ""
+	case *ssa.Const:
+		if x.IsNil() {
+			return ""
+		}
+	case *ssa.Extract:
+		if lk, ok := x.Tuple.(*ssa.Lookup); ok && x.Index == 0 {
+			return classifyIn(c, g, fS, scopeT, lk, depth)
+		}
+	case *ssa.Lookup:
+		if f, _ := loadedField(x.X); f == fS {
+			return ""
+		}
+		return "it was looked up in a map that is not the canonical-key map of the shard"
+	case *ssa.Phi:
+		for _, e := range x.Edges {
+			if e == ssa.Value(x) {
+				continue
+			}
+			if w := classifyIn(c, g, fS, scopeT, e, depth-1); w != "" {
+				return w
+			}
+		}
+		return ""
+	}
+	return fmt.Sprintf("it is neither an entry of the shard's canonical-key map nor a scope created there (%T)", v)
+}
